@@ -94,7 +94,7 @@ class Engine(  # pylint:disable=too-few-public-methods
         except TypeError:
             try:
                 np_dtype = np.dtype(data_type).type
-            except TypeError:
+            except (TypeError, ValueError, SyntaxError):
                 raise TypeError(
                     f"data type '{data_type}' not understood by "
                     f"{cls.__name__}."
